@@ -284,6 +284,10 @@ def run(ctx):
     ctx.ob("X1", STREAM, "ClockDomainCrossing", "direct sink->source connect only when cd_from == cd_to", ok,
            "" if ok else "sink is connected straight to source outside the same-domain arm")
     crossing_stage_domains(ctx, "X1", fx)
+    from ..share import lift
+    lift(ctx, "c03", [("S5", "_FIFOWrapper", "wire:")], "X5",
+         "what crosses is the token that was sent: the FIFO wrapper behind AsyncFIFO / ClockDomainCrossing stores payload, param, first and "
+         "last each from the sink field of the same name and hands them out likewise (C03.S5 decides the same construct)", min_sites=4)
     # X4
     m = ctx.mod(STREAM)
     init = m.method("ClockDomainCrossing", "__init__")
